@@ -46,13 +46,18 @@ class Table(object):
     def row_env(self, i):
         return dict(zip(self.names, self.rows[i]))
 
+    def index_of(self, row):
+        if not hasattr(self, "_index"):
+            self._index = {r: i for i, r in enumerate(self.rows)}
+        return self._index[row]
+
 
 class BruteSolver(IncrementalTrackingSolver):
     LOGICS = PYSMT_LOGICS
     OptionsClass = BruteOptions
 
     def __init__(self, environment, logic, table=None, tape=None, policy="uniform",
-                 assumption_style="z3", fault_plan=None, **options):
+                 assumption_style="z3", fault_plan=None, model_scope="all", **options):
         IncrementalTrackingSolver.__init__(self, environment=environment,
                                            logic=logic, **options)
         self.mgr = environment.formula_manager
@@ -61,6 +66,11 @@ class BruteSolver(IncrementalTrackingSolver):
         self.tape = tape
         self.policy = policy
         self.assumption_style = assumption_style
+        # "asserted": like real solvers, a model assigns only the symbols that occur in the live
+        # assertions / assumptions; the values of the others come from model completion (any value
+        # does: the caller must make sure the default is in the symbol's domain)
+        self.model_scope = model_scope
+        self.b_assumption_syms = set()
         self.fault_plan = dict(fault_plan or {})   # {"unknown_at": {k,...}, "convert_at": {k,...}}
         self.adversary_key = None    # row index -> sortable "progress" (harness-provided)
         # ---- back-end state (the "disk")
@@ -132,8 +142,11 @@ class BruteSolver(IncrementalTrackingSolver):
     @clear_pending_pop
     def _solve(self, assumptions=None):
         mask = self.table.full
+        self.b_assumption_syms = set()
         if assumptions is not None:
             assumptions = list(assumptions)
+            for x in assumptions:
+                self.b_assumption_syms |= {v.symbol_name() for v in x.get_free_variables()}
             if self.assumption_style == "z3":
                 lits, others = [], []
                 for x in assumptions:
@@ -163,6 +176,19 @@ class BruteSolver(IncrementalTrackingSolver):
         rows = [i for i in range(self.table.n) if (mask >> i) & 1]
         self.b_last_models = len(rows)
         self.b_model_row = self._pick(rows)
+        self.b_scope = None
+        if self.model_scope == "asserted":
+            # symbols outside the live assertions / assumptions are unconstrained: the solver's own
+            # model gives them the default value (as model completion does), consistently for
+            # get_value() on the solver and on the model object
+            scope = set(self.b_assumption_syms)
+            for f in self.b_live():
+                scope |= {v.symbol_name() for v in f.get_free_variables()}
+            self.b_scope = scope
+            env = self.table.row_env(self.b_model_row)
+            row = tuple((env[n] if n in scope else (False if isinstance(env[n], bool) else 0)) for n in self.table.names)
+            self.b_model_row = self.table.index_of(row)
+            assert (mask >> self.b_model_row) & 1, "default completion left the model set"
         return True
 
     def _pick(self, rows):
@@ -183,7 +209,10 @@ class BruteSolver(IncrementalTrackingSolver):
             raise InternalSolverError("no model available")
         env = self.table.row_env(self.b_model_row)
         assignment = {}
+        scope = getattr(self, "b_scope", None)
         for name, v in env.items():
+            if scope is not None and name not in scope:
+                continue
             s = self.mgr.get_symbol(name)
             assignment[s] = feval.py_to_const(self.mgr, v, s.symbol_type())
         return EagerModel(assignment=assignment, environment=self.environment)
